@@ -1,7 +1,7 @@
 """C16 — issued certificates (new_cert and wrappers). DESIGN §4 C16."""
 import ast
 
-from .common import ctx, returns, calls_in_ctx, site, srcs_text, full_text, bound_args, call_arg
+from .common import ctx, returns, calls_in_ctx, site, srcs_text, full_text, bound_args, call_arg, explore
 from ..flow import callee_attr
 from ..linexpr import lin, show, NotLinear
 from ..loader import AnalysisError, norm, NOVALUE
@@ -20,6 +20,15 @@ def single_defs(cx):
     return {k: v[0] for k, v in d.items() if len(v) == 1 and isinstance(v[0], ast.AST)}
 
 
+def _killed(cx, call, atom):
+    """under the valuation `atom`, the parameter binding of the issuer id cannot reach `call`: a re-binding lies on every path"""
+    cn = cx.node_of(call)
+    redefs = {n.id for n in cx.cfg.nodes if n.kind != 'entry' and any(nm == 'issuer_id' for (nm, _) in cx.cfg.defs_of(n))}
+    if isinstance(call.args[1], ast.Name) and call.args[1].id == 'issuer_id':
+        return cn.id not in explore(cx, atom, stop=redefs)
+    return False
+
+
 def run(R):
     P = R.P
     nc = ctx(R, SV + '.new_cert')
@@ -28,12 +37,44 @@ def run(R):
     sub = single_defs(nc)
     R.ob('C16.PRV.1', 'new_cert: name = normalize(key_name) + [issuer, version]; content = pub_key; content type KEY; not_before from '
                       'start_time and not_after from end_time with the certificate time format; the signer argument signs')
+    # object paths: a local that holds a freshly constructed object which is stored into `<path>.attr` *is* `<path>.attr`
+    # (`v = ValidityPeriod(); info.validity_period = v; v.not_before = ..` writes `cert_val.signature_info.validity_period.not_before`)
+    root = [nm for n in nc.cfg.nodes for (nm, v) in nc.cfg.defs_of(n) if isinstance(v, ast.Call) and ast.unparse(v.func) == 'CertificateV2Value']
+    R.need(len(set(root)) == 1, 'new_cert: the certificate value object is not bound to one local')
+    root = root[0]
+    path = {root: 'cert_val'}
+    changed = True
+    while changed:
+        changed = False
+        for n in nc.cfg.nodes:
+            if n.kind == 'stmt' and isinstance(n.ast, ast.Assign) and isinstance(n.ast.targets[0], ast.Attribute):
+                t = n.ast.targets[0]
+                base = t.value
+                while isinstance(base, ast.Attribute):
+                    base = base.value
+                if isinstance(base, ast.Name) and base.id in path:
+                    for s_ in nc.sources(n, n.ast.value):
+                        if s_.kind == 'expr' and isinstance(s_.expr, ast.Call):
+                            holders = [nm for m_ in nc.cfg.nodes for (nm, v) in nc.cfg.defs_of(m_) if v is s_.expr]
+                            full = path[base.id] + ast.unparse(t)[len(base.id):]
+                            for h in holders:
+                                if h not in path:
+                                    path[h] = full
+                                    changed = True
+
+    def canon_path(t):
+        base = t
+        while isinstance(base, ast.Attribute):
+            base = base.value
+        if isinstance(base, ast.Name) and base.id in path:
+            return path[base.id] + ast.unparse(t)[len(base.id):]
+        return ast.unparse(t)
     attr_stores = {}
     for n in nc.cfg.nodes:
         if n.kind == 'stmt' and isinstance(n.ast, ast.Assign):
             for t in n.ast.targets:
                 if isinstance(t, ast.Attribute):
-                    attr_stores.setdefault(ast.unparse(t), []).append((n, n.ast.value))
+                    attr_stores.setdefault(canon_path(t), []).append((n, n.ast.value))
 
     def chk(oid, inst, cond, construct, what):
         if cond:
@@ -91,22 +132,24 @@ def run(R):
                     else:
                         why = f'value is {ast.unparse(e)[:60]}'
         chk('C16.PRV.1', f'{field} <- {param}', okf, st[0][0].ast if st else nc.f.node, f'validity period {field}: {why}')
-    sets = [c for (n, c) in calls_in_ctx(nc, attr='set_arg') if ast.unparse(c.func.value) == 'cert_val._signer']
+    sets = [c for (n, c) in calls_in_ctx(nc, attr='set_arg') if ast.unparse(c.func.value) == f'{root}._signer']
     chk('C16.PRV.1', 'signer argument signs', len(sets) == 1 and [ast.unparse(a) for a in sets[0].args] == ['markers', 'signer'],
         sets[0] if sets else nc.f.node, 'the certificate is not signed with the signer argument')
-    encs = [c for (n, c) in calls_in_ctx(nc, attr='encode') if ast.unparse(c.func.value) == 'cert_val']
+    encs = [c for (n, c) in calls_in_ctx(nc, attr='encode') if ast.unparse(c.func.value) == root]
     chk('C16.PRV.1', 'encode with the same markers', len(encs) == 1 and ast.unparse(call_arg(P, nc, encs[0], 'markers', ast.Constant(None))) == 'markers',
         encs[0] if encs else nc.f.node, 'the certificate value is not encoded with the markers that carry the signer')
     # ------------------------------------------------------------------ SIZ.1
     R.ob('C16.SIZ.1', 'new_cert: outer TLV assembled exactly: buffer = TL(DATA) + TL(n) + n, type at 0, length at TL(DATA), value after, '
                       'n = len(value) - signature shrink')
     try:
-        shr = sub.get('shrink_size')
-        okshr = shr is not None and ast.unparse(shr) == 'cert_val._shrink_len.get_arg(markers)'
-        chk('C16.SIZ.1', 'shrink amount from the signing markers', okshr, shr if shr is not None else nc.f.node,
+        shr_calls = [c for (n, c) in calls_in_ctx(nc, attr='get_arg') if ast.unparse(c.func.value) == f'{root}._shrink_len' and [ast.unparse(a) for a in c.args] == ['markers']]
+        valv = [nm for n in nc.cfg.nodes for (nm, v) in nc.cfg.defs_of(n) if isinstance(v, ast.Call) and v in encs]
+        R.need(len(valv) == 1, 'new_cert: the encoded certificate value is not bound to one local')
+        valv = valv[0]
+        chk('C16.SIZ.1', 'shrink amount from the signing markers', len(shr_calls) >= 1, shr_calls[0] if shr_calls else nc.f.node,
             'the shrink amount is not read from the markers of this encode')
-        n_expr = ast.parse('len(value) - shrink_size', mode='eval').body
-        N = lin(n_expr, sub)
+        # n = len(value) - shrink, as a linear form over len(value) and the shrink amount read from the markers
+        N = lin(ast.parse(f'len({valv}) - {root}._shrink_len.get_arg(markers)', mode='eval').body, sub)
         TLD = {'get_tl_num_size(TypeNumber.DATA)': 1}
         TLN = {f'get_tl_num_size({show(N)})': 1}
         want_len = dict(TLD)
@@ -152,27 +195,45 @@ def run(R):
         calls = [c for (n, c) in calls_in_ctx(cx) if isinstance(c.func, ast.Name) and c.func.id == 'new_cert']
         inst = f'{cx.qual} :: arguments of new_cert'
         probs = []
-        if len(calls) != 1 or not all(isinstance(r.ast.value, ast.Call) and r.ast.value is calls[0] for r in returns(cx)):
+        if not calls or not all(isinstance(r.ast.value, ast.Call) and any(r.ast.value is c for c in calls) for r in returns(cx)):
             probs.append('does not return new_cert(...)')
+        elif len(calls) != 1 and fn != 'derive_cert':
+            raise AnalysisError(f'{fn}: {len(calls)} calls of new_cert (one expected)')
         else:
+            for c_ in calls:
+                a = [ast.unparse(x) for x in c_.args]
+                if [a[0], a[2], a[3]] != ['key_name', 'pub_key', 'signer']:
+                    probs.append(f'key name / public key / signer are passed as {[a[0], a[2], a[3]]}')
+                if issuer and a[1] != issuer:
+                    probs.append(f'issuer component is {a[1]}, expected {issuer}')
             a = [ast.unparse(x) for x in calls[0].args]
-            if [a[0], a[2], a[3]] != ['key_name', 'pub_key', 'signer']:
-                probs.append(f'key name / public key / signer are passed as {[a[0], a[2], a[3]]}')
-            if issuer and a[1] != issuer:
-                probs.append(f'issuer component is {a[1]}, expected {issuer}')
             if fn == 'derive_cert':
-                if a[1] != 'issuer_id':
-                    probs.append(f'issuer component is {a[1]}')
-                conv = [n for n in cx.cfg.nodes if n.kind == 'stmt' and isinstance(n.ast, ast.Assign) and ast.unparse(n.ast.targets[0]) == 'issuer_id']
-                tests = [t for t in cx.cfg.nodes if t.kind == 'test' and ast.unparse(t.ast) == 'isinstance(issuer_id, str)']
-                if len(conv) != 1 or ast.unparse(conv[0].ast.value) != 'Component.from_str(issuer_id)' or not tests \
-                        or conv[0].id in cx.cfg.reachable(removed_edges={(tests[0].id, True)}):
-                    probs.append('a textual issuer id is not converted with Component.from_str (only when it is text)')
-                ends = [v for n in cx.cfg.nodes for (nm, v) in cx.cfg.defs_of(n) if nm == 'end_time']
-                if len(ends) != 1 or ast.unparse(ends[0]) != 'start_time + timedelta(seconds=expire_sec)':
-                    probs.append('end of validity is not start_time + expire_sec seconds')
-                if a[4:] != ['start_time', 'end_time']:
-                    probs.append(f'validity passed as {a[4:]}')
+                # valuation "the issuer id is text": exactly then it is converted with Component.from_str, otherwise passed as given
+                for text in (True, False):
+                    def atom(e, text=text):
+                        return text if ast.unparse(e) == 'isinstance(issuer_id, str)' else None
+                    reach = explore(cx, atom)
+                    live = [c_ for c_ in calls if cx.node_of(c_).id in reach]
+                    if not live:
+                        probs.append(f'no certificate is issued when the issuer id is {"text" if text else "a component"}')
+                    for c_ in live:
+                        srcs = cx.sources(cx.node_of(c_), c_.args[1])
+                        # only the bindings that are live under this valuation count
+                        srcs = [s_ for s_ in srcs if s_.kind == 'param' or s_.node.id in reach]
+                        conv = [s_ for s_ in srcs if s_.kind == 'expr' and ast.unparse(s_.expr) == 'Component.from_str(issuer_id)']
+                        raw = [s_ for s_ in srcs if s_.kind == 'param' and s_.expr == 'issuer_id']
+                        other = [s_ for s_ in srcs if s_ not in conv and s_ not in raw]
+                        if other:
+                            probs.append(f'issuer component is {srcs_text(other)}')
+                        if text and raw and not _killed(cx, c_, atom):
+                            probs.append('a textual issuer id is not converted with Component.from_str (only when it is text)')
+                        if not text and conv:
+                            probs.append('a textual issuer id is not converted with Component.from_str (only when it is text)')
+                for c_ in calls:
+                    if full_text(cx, c_.args[5]) != 'start_time + timedelta(seconds=expire_sec)':
+                        probs.append('end of validity is not start_time + expire_sec seconds')
+                    if ast.unparse(c_.args[4]) != 'start_time':
+                        probs.append(f'validity start passed as {ast.unparse(c_.args[4])}')
             else:
                 end = calls[0].args[5]
                 cn = cx.node_of(calls[0])
